@@ -424,8 +424,8 @@ def check_inout(case):
         ("." + R.VIEW_ATTR[c["view"]] if c["view"] else "")
     call = f"L0(a0=self.x1, io0={act})"
     inst = f"        {call}" if c["where"] == "arch" else f"        @std.concurrent\n        def ctx():\n            {call}"
-    out.labels += ["inout", f"where:{c['where']}", "actual:" + "+".join(
-        (["slice" if c["rk"] == "bv" else "numslice"] if c["sl"] else []) + (["view"] if c["view"] else [])) or "actual:whole"]
+    out.labels += ["inout", f"where:{c['where']}", "actual:" + ("+".join(
+        (["slice" if c["rk"] == "bv" else "numslice"] if c["sl"] else []) + (["view"] if c["view"] else [])) or "whole")]
     try:
         vhdl = compile_source(INOUT_SRC.format(fty=fty, rty=rty, inst=inst), "Top")
     except Rejected as e:
